@@ -424,7 +424,10 @@ def main(argv):
           'violations': len(new_fail) + (1 if broken and not new_fail else 0)}
     if notes:
         cov.setdefault('notes', []).extend(notes)
-    write_evidence(pid, ev)
+    if a.skip_lean:
+        log('development run (--skip-lean): evidence not written')
+    else:
+        write_evidence(pid, ev)
 
     for b in broken:
         log('NO LONGER CHECKS:', b)
